@@ -242,7 +242,7 @@ def scripts(ctx):
     if ctx.thorough:
         plans = [('SR', 12), ('SRC', 9), ('SRCO', 6)]
     else:
-        plans = [('SR', 9), ('SC', 7), ('SRCO', 5)]
+        plans = [('SR', 9), ('SC', 7), ('SRCO', 4)]
     seen = set()
     for alpha, maxlen in plans:
         for ln in range(0, maxlen + 1):
@@ -258,8 +258,8 @@ def scripts(ctx):
 def run(ctx: lib.Ctx) -> None:
     import pytezos.rpc.node as node_mod
 
-    ctx.rule = ('exhaustive: every outcome script over {Success, RpcError} up to length 10, {Success, transport error} up to 8 and '
-                '{Success, RpcError, transport error, other exception} up to length 5 (thorough: 2 outcomes up to 12, 3 up to 9, 4 up to 6) '
+    ctx.rule = ('exhaustive: every outcome script over {Success, RpcError} up to length 9, {Success, transport error} up to 7 and '
+                '{Success, RpcError, transport error, other exception} up to length 4 (thorough: 2 outcomes up to 12, 3 up to 9, 4 up to 6) '
                 'for 1..4 nodes with distinct addresses, per-node RpcNode.request stubbed (node identified by object position); the same over 8 node lists '
                 'that repeat an address (e.g. a,a,b / a,b,a,c) with scripts up to length 8 (thorough 11); the client driven through every public entry point '
                 '(request/get/post/put/delete, mixed, uniform, and one odd call among requests) with pytezos.rpc.node.requests stubbed and the target read off the URL; plus random scripts of length 11..60 for 1..7 nodes and pairs of '
